@@ -371,6 +371,15 @@ class Interp(Engine):
             if inspect.isfunction(sa):
                 return SV(KConst, None, const=BoundMethod(v, attr, sa))
             raise Unsupported("enum attribute %s" % attr)
+        if k is KVal:
+            for cn in self.reg.val_classes:
+                decl, fk = self.field_decl(cn, attr)
+                cls = self.class_by_name(cn)
+                if decl is not None or (cls is not None and inspect.getattr_static(cls, attr, None) is not None):
+                    obj = self.coerce_val_unchecked(st, v, KRef(cn))
+                    if not self.spec_mode:
+                        self.type_ob(st, val_sort().is_vobj(v.term), "object", node)
+                    return self.getattr(st, obj, attr, node)
         if isinstance(k, (KList, KDict, KSet)) or k is KStr or k is KVal or k is KFloat or k is KInt:
             return SV(KConst, None, const=BoundMethod(v, attr, None))
         if isinstance(k, KOpt):
@@ -740,7 +749,7 @@ class Interp(Engine):
         fn = node.func
         if isinstance(fn, ast.Name):
             nm = fn.id
-            if nm in ("old", "forall", "exists", "implies", "fresh", "iff") and (self.spec_mode or nm in ("implies",)):
+            if nm in ("old", "forall", "exists", "implies", "fresh", "iff", "nondet") and (self.spec_mode or nm in ("implies",)):
                 return self.spec_builtin(st, nm, node)
         if isinstance(fn, ast.Name) and fn.id == "cast" and len(node.args) == 2:
             return self.eval(st, node.args[1])     # typing.cast: identity, the type is not evaluated
@@ -1015,6 +1024,8 @@ class Interp(Engine):
             finally:
                 fr.env = saved
             return SV(KBool, z3.ForAll(vs, body) if nm == "forall" else z3.Exists(vs, body))
+        if nm == "nondet":
+            return SV(KBool, st.fresh("nondet", z3.BoolSort()))
         if nm == "fresh":
             ctx = self.spec_stack[-1]
             v = self.eval(st, node.args[0])
